@@ -27,7 +27,7 @@ type c07Case struct {
 }
 
 var c07Kinds = []string{"code", "at-code", "at-password", "at-cc", "at-refresh", "at-implicit", "at-device", "at-jwtbearer", "jwt-at-code", "jwt-at-refresh", "idt-code", "idt-implicit", "idt-hybrid-front", "idt-hybrid-token", "idt-refresh", "rt-code", "rt-password", "rt-refresh", "rt-unlimited",
-	"device-code", "user-code", "par", "bearer-assertion", "client-assertion", "at-as-bearer", "at-password/abandoned-refresh", "at-code/abandoned-redeem"}
+	"device-code", "user-code", "par", "bearer-assertion", "client-assertion", "request-object", "at-as-bearer", "at-password/abandoned-refresh", "at-code/abandoned-redeem"}
 var c07AgesRel = []int{-1000000, -10, -3, -2, 2, 3, 10, 30, 3600, 86400}
 var c07AgesDeep = []int{-1000000, -86400, -3600, -600, -60, -10, -5, -4, -3, -2, 2, 3, 4, 5, 10, 30, 60, 600, 3600, 86400, 2592000, 31536000}
 
@@ -134,7 +134,7 @@ func c07Leff(kind, source string) int {
 		return def["dev"]
 	case "par":
 		return def["par"]
-	case "bearer-assertion", "client-assertion":
+	case "bearer-assertion", "client-assertion", "request-object":
 		return 240
 	}
 	return -1
@@ -372,6 +372,17 @@ func c07Run(c c07Case, res *WRes) {
 			o := w.Token(url.Values{"grant_type": {"client_credentials"}, "scope": {"a"}}, Auth{Mode: "omit", Extra: url.Values{"client_assertion_type": {"urn:ietf:params:oauth:client-assertion-type:jwt-bearer"}, "client_assertion": {as}}})
 			return issued(o), o
 		}
+	case "request-object":
+		// a signed OpenID Connect request object (a JWT with an exp of its own) presented at the authorization endpoint
+		ro := &fosite.DefaultOpenIDConnectClient{DefaultClient: w.AddClient("Q", "secret-Q", false), RequestObjectSigningAlgorithm: "RS256", JSONWebKeys: jwks(pubJWK(rsaKey("rsa1"), "rk", "RS256"))}
+		ro.DefaultClient.RedirectURIs = []string{"https://Q.example/cb"}
+		w.Mem.Clients["Q"] = ro
+		now := w.Now()
+		obj := signJWT(rsaKey("rsa1"), "RS256", "rk", map[string]any{"iss": "Q", "aud": IssuerURL, "client_id": "Q", "response_type": "code", "redirect_uri": "https://Q.example/cb", "scope": "openid a", "state": "ro-state-0123456789", "exp": c07EncodeExp(c.ExpEnc, now, 240)}, nil)
+		present = func() (bool, *Obs) {
+			o := w.Authorize(url.Values{"client_id": {"Q"}, "response_type": {"code"}, "redirect_uri": {"https://Q.example/cb"}, "scope": {"openid a"}, "state": {"state-12345678"}, "nonce": {"nonce-12345678"}, "request": {obj}}, AuthzOpts{Subject: "user-1"})
+			return o.Param("code") != "", o
+		}
 	case "at-device", "device-code", "user-code":
 		do := w.DeviceAuth(url.Values{"client_id": {"L"}, "scope": {"offline a"}}, auth)
 		dc, uc := do.Str("device_code"), do.Str("user_code")
@@ -557,7 +568,7 @@ func init() {
 			return res, nil
 		}
 		encs := []string{""}
-		if j.Kind == "bearer-assertion" || j.Kind == "client-assertion" {
+		if j.Kind == "bearer-assertion" || j.Kind == "client-assertion" || j.Kind == "request-object" {
 			encs = []string{"int", "float", "float-frac"}
 		}
 		for _, off := range j.Offsets {
